@@ -75,9 +75,13 @@ var upDamages = []upDamage{
 	}},
 }
 
+var c07faults *verifrt.Result
+
 func TestVerifC05Upload(t *testing.T) {
 	const check = "C05.upload"
 	res := verifrt.NewResult(check)
+	c07f := verifrt.NewResult("C07.faults")
+	c07f.Rule = "the C05.upload runs (uploader over two healthy finished files of one week, one damaged file of another week, hostile layouts) with one fs call failing with EACCES/ENOSPC/EIO/ENOENT/EMFILE: whenever no report for the healthy week exists afterwards, its counter files must still be there, byte for byte (files are removed only once a report for their week exists), and a fault-free second run must then produce the report. distinct = distinct fault plans that were delivered"
 	res.Rule = "telemetry directory with two healthy finished counter files of one week plus one file damaged at rest (self/ring links incl. through zero-valued records, header length, limit, bucket head, name length, truncation, random bytes, metadata), and hostile layouts (local/upload missing or a regular file, report name taken by a directory); the public upload.Run (mode local) and the uploader's Run (mode on, local server) are called under a loop-tick budget and panic guard, fault-free and with every recorded fs call failing with EACCES/ENOSPC/EIO/ENOENT in turn: must return; with no injected fault the healthy week's report must equal the reference sums. distinct = distinct (damage, fault) plans"
 	nb := 8
 	total := verifrt.Scale(600, 20000)
@@ -85,6 +89,9 @@ func TestVerifC05Upload(t *testing.T) {
 	verifrt.RunBatches("TestVerifC05Upload", res, nb, 0, 30*time.Minute, "c05up.death", func(b int, r *verifrt.Result, cur *verifrt.Current) {
 		base := vtmp("c05u-")
 		defer os.RemoveAll(base)
+		c07faults = verifrt.NewResult("C07.faults")
+		c07faults.SetFile(fmt.Sprintf("C07.faults.part%d.json", b))
+		defer c07faults.Write()
 		lo, hi := verifrt.CaseRange(check, b, per)
 		for i := lo; i < hi; i++ {
 			rnd := verifrt.NewRand(verifrt.Seed(), fmt.Sprintf("%s/%d", check, i))
@@ -98,6 +105,15 @@ func TestVerifC05Upload(t *testing.T) {
 	if err := res.Write(); err != nil {
 		t.Fatal(err)
 	}
+	parts, _ := filepath.Glob(filepath.Join(verifrt.OutDir(), "C07.faults.part*.json"))
+	for _, p := range parts {
+		if pr, err := verifrt.LoadResult(p); err == nil {
+			c07f.Merge(pr)
+		}
+		os.Remove(p)
+	}
+	c07f.Require("fault-then-no-report", "retry-produced-report")
+	c07f.Write()
 }
 
 func c05UploadCase(r *verifrt.Result, base string, rnd *verifrt.Rand, i int) {
@@ -197,7 +213,7 @@ func c05UploadCase(r *verifrt.Result, base string, rnd *verifrt.Rand, i int) {
 	var errno syscall.Errno
 	if i%2 == 1 {
 		faultSeq = 1 + rnd.Intn(40)
-		errno = verifrt.Pick(rnd, []syscall.Errno{syscall.EACCES, syscall.ENOSPC, syscall.EIO, syscall.ENOENT})
+		errno = verifrt.Pick(rnd, []syscall.Errno{syscall.EACCES, syscall.ENOSPC, syscall.EIO, syscall.ENOENT, syscall.EMFILE})
 	}
 	var faults []*verifrt.Fault
 	if faultSeq > 0 {
@@ -219,6 +235,48 @@ func c05UploadCase(r *verifrt.Result, base string, rnd *verifrt.Rand, i int) {
 	}
 	if delivered {
 		r.Hit("fault-delivered")
+	}
+	if delivered && c07faults != nil && (layout == "normal" || layout == "upload-missing") {
+		w := end.Format("2006-01-02")
+		c07faults.Eval()
+		c07faults.Distinct(fmt.Sprintf("%d/%v/%s", faultSeq, errno, layout))
+		_, e1 := os.Stat(filepath.Join(td.dir.LocalDir(), "local."+w+".json"))
+		_, e2 := os.Stat(filepath.Join(td.dir.LocalDir(), w+".json"))
+		_, e3 := os.Stat(filepath.Join(td.dir.UploadDir(), w+".json"))
+		if e1 != nil && e2 != nil && e3 != nil {
+			c07faults.Hit("fault-then-no-report")
+			missing := 0
+			ents, _ := os.ReadDir(td.dir.LocalDir())
+			have := map[string]bool{}
+			for _, en := range ents {
+				have[en.Name()] = true
+			}
+			for k := 0; k < 2; k++ {
+				f := &ufile{Build: bld, Begin: end.Add(-3 * 24 * time.Hour)}
+				f.setName(k)
+				if !have[f.FileName] {
+					missing++
+				}
+			}
+			if missing > 0 {
+				c07faults.Violate("files-removed-without-report", fmt.Sprintf("fs call #%d failed with %v: no report for week %s exists, yet %d of its 2 counter files were removed (their data is lost)", faultSeq, errno, w, missing), rp)
+			} else {
+				// a later fault-free run must be able to report the week
+				run(nil)
+				if lr, _, err := readReport(filepath.Join(td.dir.LocalDir(), "local."+w+".json")); err != nil {
+					c07faults.Violate("retry-produced-no-report", fmt.Sprintf("after a failed run (call #%d = %v) a fault-free run still produced no report: %v", faultSeq, errno, err), rp)
+				} else if d := compareProgs(lr.Programs, verifref.Aggregate(srcs)); d != "" {
+					c07faults.Violate("retry-report-content", "report of the retry differs from the week's sums: "+d, rp)
+				} else {
+					c07faults.Hit("retry-produced-report")
+				}
+			}
+		} else {
+			c07faults.Hit("fault-but-report-exists")
+		}
+		if i < 40 && faultSeq > 0 {
+			c07faults.Sample(map[string]any{"case": i, "fault_at_call": faultSeq, "errno": errno.Error(), "layout": layout})
+		}
 	}
 	if !delivered && layout == "normal" || layout == "upload-missing" && !delivered {
 		// the healthy week must be reported exactly, whatever the damaged file is
